@@ -148,6 +148,17 @@ PROPS = {
         ],
         "assumptions": ["reconnect delays use package time (virtualised by the bubble)"],
     },
+    "C10": {
+        "level": "model_checking",
+        "uses_vsched": True,
+        "technique": "stateless model checking of the real streamable HTTP handler under a controlled scheduler: concurrent POSTs of two sessions, every handler release order, delay-bounded schedules; every exchange's bytes attributed to its request",
+        "claim": "two sessions (same JSON-RPC ids in both) x two concurrent tools/call POSTs each, each handler sending a request-scoped progress notification and then parking on a gate released in every order, stateful SSE/JSON and stateless, plus each session's standalone stream: on every explored schedule each exchange carries exactly the response (and request-scoped notifications) of its own request, standalone streams carry only their own session's notifications and never a response; a duplicate in-flight id on one session never makes a response travel on the other POST's exchange",
+        "note": "two sessions, two requests per session; budgets B<=1 (quick) / 2 (thorough), B<=2/3 for the duplicate-id scenarios; resumed streams are covered by C08",
+        "parts": [
+            {"pkg": "mcp", "mode": "instr", "test": "TestVerifC10"},
+        ],
+        "assumptions": E1_ASSUME,
+    },
     "C11": {
         "level": "model_checking",
         "technique": "explicit-state search over request histories against the real stateful handler under virtual time, with a reference session table checked after every step",
